@@ -24,4 +24,5 @@ def check(tree, rep, tier='quick', seed=0):
     R.k20_ctrl_c(core, rep)
     R.k8_input_store_writes(core, rep)
     l1_access(tree, rep)
+    R.k32_solve_single_exit(core, rep)   # an answered input reaches its lines: the loop is never left with met dependencies undrained
     rep.floor('core rule obligations', sum(v[0] for k, v in rep.rules.items() if k.startswith('K')), 30)
